@@ -211,7 +211,34 @@ class SpanModel:
     @staticmethod
     def call_method(i, v, name, a, pl, h, tf, ctx):
         if name in ('start', 'end'):
+            if 'line' in v.f:
+                return Struct('LineColumn', {'line': v.f['line'], 'column': v.f['column']})
             return Struct('LineColumn', {'line': UIntC(1), 'column': UIntC(0)})
+        return NotImplemented
+
+
+class SynErrorModel:
+    """syn::Error of a failed parse: its span is an arbitrary position of the source text
+    (line 0 = call-site span without location), chosen nondeterministically when asked for"""
+    @staticmethod
+    def call_method(i, v, name, a, pl, h, tf, ctx):
+        if name == 'span':
+            if 'span' not in v.f:
+                text = v.f.get('text')
+                py = text.py() if isinstance(text, Str) else None
+                if py is None:
+                    v.f['span'] = Struct('Span', {'line': UIntC(1), 'column': UIntC(0)})
+                else:
+                    lines = py.split('\n')
+                    ln = V.ENG.choose(len(lines) + 1)
+                    if ln == 0:
+                        v.f['span'] = Struct('Span', {'line': UIntC(0), 'column': UIntC(0)})
+                    else:
+                        col = V.ENG.choose(len(lines[ln - 1]) + 1)
+                        v.f['span'] = Struct('Span', {'line': UIntC(ln), 'column': UIntC(col)})
+            return v.f['span']
+        if name in ('to_string', 'to_compile_error', 'into_compile_error'):
+            return Str((Opaque('syn-error', None),))
         return NotImplemented
 
 
@@ -374,6 +401,7 @@ def enum_method(i, v, name, a):
     return NotImplemented
 
 
+B.EXT_STRUCT_MODELS['syn::Error'] = SynErrorModel
 for _n, _m in (('Ident', IdentModel), ('Span', SpanModel), ('Path', PathModel), ('Attribute', AttributeModel),
                ('MetaList', MetaListModel), ('TokenStream', TokenStreamModel), ('LitStr', LitStrModel),
                ('LitInt', LitNumModel), ('LitFloat', LitNumModel), ('LitBool', LitBoolModel)):
